@@ -10,11 +10,11 @@ from ..common import Report
 PROPERTY = "C03"
 ENGINE = "E1"
 TECHNIQUE = "explicit-state breadth-first exploration of operation histories on live objects (depth-bounded, reflected operation alphabet), invariant = agreement with a freshly constructed object"
-LEVEL_TEXT = "All histories up to the depth bound over an operation alphabet found by reflection (setters, mutators, core-handle operations, reads that write) are executed from 22 base shapes (chiral, lattice, tabulated, triangulated, non-convex L and U, clockwise, negative-orientation, tiny); every reached state (canonical instance dictionary) is checked against a fresh object on every public observable, for proper orientation, and raising operations for atomicity."
+LEVEL_TEXT = "All histories up to the depth bound over an operation alphabet found by reflection (setters, mutators, core-handle operations, reads that write) are executed from 24 base shapes (chiral, lattice, tabulated, triangulated, non-convex L and U, clockwise, negative-orientation, tiny, xy-plane with -z normal); every reached state (canonical instance dictionary) is checked against a fresh object on every public observable, for proper orientation, and raising operations for atomicity."
 RULE = (
     "explicit-state BFS over histories of public operations (every settable property x {0.5x, 2x, non-positive}, centre "
     "setters x {origin,(1,2,3),relative}, diagonalize_inertia, merge_faces, sort_faces, to_hoomd and every read that writes "
-    "the instance dictionary - all found by reflection) from 22 base shapes (chiral, lattice, tabulated, triangulated, non-convex L and U, clockwise, negative-orientation, tiny) of the six vertex-based classes; a state is the "
+    "the instance dictionary - all found by reflection) from 24 base shapes (chiral, lattice, tabulated, triangulated, non-convex L and U, clockwise, negative-orientation, tiny, xy-plane with -z normal) of the six vertex-based classes; a state is the "
     "canonical form of the whole instance dictionary; on every state every public observable (by reflection, modulo face "
     "relabelling) is compared with a freshly constructed object with the same vertices/faces/normal/radius; a raising "
     "operation must leave the state bit-identical; the vertex cloud must remain a proper (det=+1) similarity image of the "
